@@ -45,12 +45,17 @@ def _scalars_from_trace(trace):
         v = st.get("value", {})
         if "data" in v:
             vals[st.get("lhs", "")] = v["data"]
+        if "binary" in v:
+            vals[st.get("lhs", "") + "#bin"] = v["binary"]
     return vals
 
 
 def leaf_trace(workdir, proof_name, obligation, timeout=300):
     """Re-run cbmc with --trace on the already built goto binary of a leaf proof."""
     gb = os.path.join(workdir, proof_name + ".c.gb")
+    if not os.path.exists(gb) or (os.path.exists(os.path.join(workdir, proof_name + ".b.gb")) and
+                                  os.path.getmtime(os.path.join(workdir, proof_name + ".b.gb")) > os.path.getmtime(gb)):
+        gb = os.path.join(workdir, proof_name + ".b.gb")     # plain harness proofs are not dfcc-instrumented
     p = subprocess.run(["cbmc", "--no-standard-checks", "--json-ui", "--trace", "--property", obligation, gb],
                        stdout=subprocess.PIPE, stderr=subprocess.PIPE, text=True, timeout=timeout)
     try:
@@ -133,17 +138,18 @@ def replay_file(path):
             print("  %s: %s" % (v["obligation"], v["description"]))
         print(rep.get("verifier_output_tail", "")[-1500:])
         return 1
-    binpath = build_native(cex["driver"], [os.path.join(core.HERE, "replay", s) for s in cex["driver_sources"]],
-                           cex.get("driver_flags", ()))
+    binpath = build_native(cex["driver"], [os.path.join(core.HERE, "replay", s) for s in cex["driver_sources"]] +
+                           [os.path.join(core.REPO, s) for s in cex.get("repo_sources", ())], cex.get("driver_flags", ()))
     rc, out = run_native(binpath, cex["args"])
     print(out.strip())
     print("REPRODUCED" if rc != 0 else "NOT-REPRODUCED", "obligation=%s" % rep["failed_obligations"][0]["obligation"])
     return 1 if rc != 0 else 0
 
 
-def native_check(driver, sources, args, flags=()):
-    """Build + run; returns dict for the replay file."""
-    binpath = build_native(driver, [os.path.join(core.HERE, "replay", s) for s in sources], flags)
+def native_check(driver, sources, args, flags=(), repo_sources=()):
+    """Build + run; returns dict for the replay file. repo_sources are .cc files of the current /repo tree compiled in."""
+    binpath = build_native(driver, [os.path.join(core.HERE, "replay", s) for s in sources] +
+                           [os.path.join(core.REPO, s) for s in repo_sources], flags)
     rc, out = run_native(binpath, args)
-    return {"driver": driver, "driver_sources": list(sources), "driver_flags": list(flags), "args": [str(a) for a in args],
+    return {"driver": driver, "driver_sources": list(sources), "repo_sources": list(repo_sources), "driver_flags": list(flags), "args": [str(a) for a in args],
             "native_output": out.strip()[-800:], "reproduced": rc != 0 and rc != 2}
